@@ -20,20 +20,32 @@ import (
 // modules' ExportGenesis / InitGenesis.
 var decodeCallRe = regexp.MustCompile(`Unmarshal`)
 
-func (c *Ctx) decodeTargetsFresh(P string) []Obligation {
-	var roots []*ssa.Function
-	for _, m := range genModules {
-		for _, n := range []string{m.export, m.init} {
-			if f := c.A.FnOpt(n); f != nil {
-				roots = append(roots, f)
+func (c *Ctx) decodeTargetsFresh(P string) []Obligation { return c.decodeTargetsFreshIn(P, false) }
+
+// decodeTargetsFreshIn: with everywhere, every repository function is examined (C38: whatever is stored
+// decodes back to an equal value, wherever it is read in bulk); otherwise only what the genesis
+// export / import reaches (C43).
+func (c *Ctx) decodeTargetsFreshIn(P string, everywhere bool) []Obligation {
+	var fns []*ssa.Function
+	if everywhere {
+		for f := range c.A.AllFns {
+			if f.Blocks != nil {
+				fns = append(fns, f)
 			}
 		}
-	}
-	reach := c.A.Reach(roots, nil)
-	var fns []*ssa.Function
-	for f := range reach {
-		if f.Blocks != nil {
-			fns = append(fns, f)
+	} else {
+		var roots []*ssa.Function
+		for _, m := range genModules {
+			for _, n := range []string{m.export, m.init} {
+				if f := c.A.FnOpt(n); f != nil {
+					roots = append(roots, f)
+				}
+			}
+		}
+		for f := range c.A.Reach(roots, nil) {
+			if f.Blocks != nil {
+				fns = append(fns, f)
+			}
 		}
 	}
 	sort.Slice(fns, func(i, j int) bool { return FnName(fns[i]) < FnName(fns[j]) })
